@@ -345,3 +345,17 @@ pub fn plot_rescale_whole(lots: &mut [PLot], by: rust_decimal::Decimal) {
         lot.price = lot.price / by;
     }
 }
+
+pub fn fallible_year(y: i32) -> Result<u16, String> {
+    if (1900..=2100).contains(&y) { Ok(y as u16) } else { Err(format!("year {y} out of range")) }
+}
+
+/// error turned into absence: the caller's loop silently skips what the callee refused
+pub fn error_dropped(ys: &[i32]) -> Vec<u16> {
+    ys.iter().filter_map(|y| fallible_year(*y).ok()).collect()
+}
+
+/// clean twin: the refusal is propagated
+pub fn error_propagated(ys: &[i32]) -> Result<Vec<u16>, String> {
+    ys.iter().map(|y| fallible_year(*y)).collect()
+}
